@@ -63,7 +63,10 @@ func TestVerif_C11Remote(t *testing.T) {
 		for mi := 0; mi < 1+r.intn(4); mi++ {
 			reqtls := r.chance(35)
 			if be != nil {
-				be.RcptErr, be.DataErr = map[string]error{}, nil
+				be.RcptErr, be.DataErr, be.MailErr = map[string]error{}, nil, nil
+				if r.chance(15) { // the next hop refuses the sender
+					be.MailErr = &smtp.SMTPError{Code: 451, EnhancedCode: smtp.EnhancedCode{4, 7, 1}, Message: "sender refused for now"}
+				}
 				if r.chance(20) {
 					be.RcptErr["rcpt@example.invalid"] = &smtp.SMTPError{Code: 550, EnhancedCode: smtp.EnhancedCode{5, 1, 1}, Message: "no"}
 				}
@@ -102,11 +105,15 @@ func TestVerif_C11Remote(t *testing.T) {
 		take := func(f func(context.Context) error) int {
 			got := 0
 			for i := 0; i < 2; i++ {
-				c2, cancel := context.WithTimeout(ctx, 20*time.Millisecond)
-				if f(c2) == nil {
-					got++
+				for attempt := 0; attempt < 2; attempt++ { // a refusal is confirmed once (deadline vs. scheduling)
+					c2, cancel := context.WithTimeout(ctx, 20*time.Millisecond)
+					err := f(c2)
+					cancel()
+					if err == nil {
+						got++
+						break
+					}
 				}
-				cancel()
 			}
 			return got
 		}
